@@ -28,7 +28,7 @@ def c17(k, ctx):
     ctx.tlc_mc("MC_Sparse", "MC_Sparse.cfg" if not ctx.thorough else "MC_Sparse_thorough.cfg")
     # spec -> impl
     cases, n = ctx.tlc_cases("MC_SparseSim", "MC_SparseSim.cfg",
-                             simulate=(2000 if ctx.thorough else 300, 33))
+                             simulate=(6000 if ctx.thorough else 300, 33))
     ctx.vh("replay", "s2i", ["--in", cases])
     # impl -> spec
     ctx.vh("gen", "i2s")
